@@ -545,10 +545,13 @@ impl PeerHandler {
                 self.new_piece_request(true, &req_data).await?
             }
             UnchokeCmd::SendRequest(req_data) => self.new_piece_request(false, &req_data).await?,
+            // Manager assigned nothing, so piece requested before previous Choke (or repeated
+            // Unchoke) is abandoned here too
             UnchokeCmd::SendNotInterested => {
+                self.piece_rx = None;
                 self.connection.send_msg(&NotInterested::new()).await?
             }
-            UnchokeCmd::Ignore => (),
+            UnchokeCmd::Ignore => self.piece_rx = None,
         }
 
         Ok(())
